@@ -195,6 +195,25 @@ pub fn judge(c: &Case, st: &mut Stats) -> Verdict {
             }
         }
     }
+    // whatever options the caller's format spec carries (a width below the line length, sign, zero padding, alternate
+    // form, left-aligned padding to a large width), the text is still a well-formed line for the same value. (Specs under
+    // which a `Formatter::pad`-style implementation would legitimately cut or left-pad the line - precision, right
+    // alignment wider than the line - are not used.)
+    for (spec, text) in [
+        ("{:8}", crate::engine::guard(|| format!("{:8}", lib))),
+        ("{:+}", crate::engine::guard(|| format!("{:+}", lib))),
+        ("{:06}", crate::engine::guard(|| format!("{:06}", lib))),
+        ("{:#}", crate::engine::guard(|| format!("{:#}", lib))),
+        ("{:<120}", crate::engine::guard(|| format!("{:<120}", lib))),
+    ] {
+        match text {
+            Ok(t) => match v1_ref(t.as_bytes()) {
+                V1Ref::Accept { addr, .. } if addr == *a => {}
+                other => return fail("format-spec", format!("format!({:?}, value) is a well-formed line decoding to {:?}", spec, a), format!("{:?} -> reference says {:?}", esc(t.as_bytes()), other)),
+            },
+            Err(p) => return fail("format-panics", format!("format!({:?}, value) returns", spec), format!("panic: {}", p)),
+        }
+    }
     // every text entry point parses it back
     let r = imp::v1_str(&s);
     match &r {
@@ -265,6 +284,29 @@ pub fn judge_line(x: &Vec<u8>, st: &mut Stats) -> Verdict {
                 format!("{:?}", esc(&x[..p])),
                 format!("{:?}", esc(t2.as_bytes())),
             ));
+        }
+    }
+    // a copy made with clone_from onto an owned header that holds the same value under another spelling (same length)
+    // formats back to THIS header's text
+    if let Ok(line) = std::str::from_utf8(&x[..p]) {
+        let alt: String = line.char_indices().map(|(i, ch)| if i > 10 && ch.is_ascii_alphabetic() { if ch.is_ascii_lowercase() { ch.to_ascii_uppercase() } else { ch.to_ascii_lowercase() } } else { ch }).collect();
+        if alt != line {
+            if let Ok(Ok(other)) = imp::v1_str(&alt) {
+                if other.addresses == h.addresses {
+                    let mut slot = other.to_owned();
+                    slot.clone_from(h);
+                    let t3 = slot.to_string();
+                    if t3.as_bytes() != &x[..p] {
+                        return Err(Fail::new(
+                            "header-display:clone_from-copy",
+                            crate::oracle::v1::shape(x),
+                            "clone_from onto an owned header with the same addresses, then to_string()",
+                            format!("{:?}", esc(&x[..p])),
+                            format!("{:?}", esc(t3.as_bytes())),
+                        ));
+                    }
+                }
+            }
         }
     }
     if text.as_bytes() != &x[..p] || h.header.as_bytes() != &x[..p] {
